@@ -62,6 +62,7 @@ from ..ir import (
     UnionField,
     UserDefined,
     Void,
+    unwrap,
     unwrap_aliases,
     unwrap_nullable,
 )
@@ -946,6 +947,15 @@ class IRGenerator:
                         raise InvalidSpec(
                             'Field %s cannot be a nullable type and have a '
                             'default specified.' % quote(field._ast_node.name),
+                            field._ast_node.lineno, field._ast_node.path)
+
+                    unwrapped_dt, _, _ = unwrap(field.data_type)
+                    if not (is_primitive_type(unwrapped_dt) or
+                            is_union_type(unwrapped_dt)):
+                        raise InvalidSpec(
+                            'Field %s cannot have a default: only fields of '
+                            'a primitive or union type can.' %
+                            quote(field._ast_node.name),
                             field._ast_node.lineno, field._ast_node.path)
 
                     if isinstance(field._ast_node.default, AstTagRef):
